@@ -116,7 +116,8 @@ func (k *Kauri) sendProposalToChildren(p *hotstuff.ProposeMsg) error {
 		}
 		k.logger.Debug("Sending proposal to children ", children)
 		childSender.Propose(p)
-		go k.waitToAggregate()
+		// the view is read here, on the event loop: the next round may have begun by the time the goroutine runs
+		go k.waitToAggregate(k.currentView)
 	} else {
 		k.sender.SendContributionToParent(k.currentView, k.aggContrib)
 		k.aggSent = true
@@ -124,8 +125,7 @@ func (k *Kauri) sendProposalToChildren(p *hotstuff.ProposeMsg) error {
 	return nil
 }
 
-func (k *Kauri) waitToAggregate() {
-	view := k.currentView
+func (k *Kauri) waitToAggregate(view hotstuff.View) {
 	time.Sleep(k.tree.WaitTime())
 	k.eventLoop.AddEvent(WaitTimerExpiredEvent{currentView: view})
 }
